@@ -325,6 +325,8 @@ func runSim(c *proto.Corpus, e *proto.Expected, seed uint64, proc, runs int, bui
 		res.Faults["preempt"] += int(o.sim.Switches)
 		res.Faults["gc"] += int(o.sim.GCs)
 		res.Faults["clock_jump"] += int(o.sim.ClockJumps)
+		res.Faults["timers_fired"] += int(o.sim.TimersFired)
+		res.Faults["time_skipped_to_next_timer"] += int(o.sim.TimeSkips)
 		res.Faults["caller_panic"] += o.stats.panics
 		res.Faults["scribble_arg"] += o.stats.scribA
 		res.Faults["scribble_result"] += o.stats.scribR
